@@ -24,8 +24,18 @@
 //!     message and its ` @ line N` tail (the quoted detail in between dropped), `~` for the other kinds;
 //!     `(cfg ..)` / `(table ..)` in the forms of `hx c17` (regex verdicts for the configured patterns on every text the
 //!     rewrite rules can look at: payees and categories of the parsed entries, rule payees, captured payees).
+//! `hx c15 csv` — one case per line `<path-enc> <config-yaml-enc> <statement-enc> [<extra-text-enc>...]`: the CSV statement goes
+//!     through the REAL `import::import(.., Format::Csv, ..)` + `to_double_entry` + printing + re-reading, and — for the importer
+//!     MODEL, which decodes number cells and templates itself from their TEXT — through the `csv` crate alone, configured like
+//!     `csv::import`:
+//!     `(ok (cfg <entry>) (cells <C>) (dates (<cell> (d Y M D))...) (import <I>) (dump <D>) (pats (<pattern> 0|1)...) (table <tab>...))`
+//!     `<C>` = `(ok (<cell>...) (<cell>...)...)` header and records | `(err)`;  `<I>` as for `viseca`;
+//!     `<D>` = the `(ok (txns ..) (text ..) (reparse ..))` record of `hx c15 import`, or `()` when nothing was built;
+//!     `(dates ..)`: every distinct cell chrono parses with the configured format (chrono stays outside the model);
+//!     `(table ..)`: the regex crate's verdicts for the configured patterns on every cell, every extra text (rendered templates,
+//!     handed over by the generator), every rule payee and every captured payee.  NO decoded number leaves the harness.
 use std::collections::HashMap;
-use std::io::{BufRead, Write};
+use std::io::{BufRead, BufReader, Write};
 use std::path::Path;
 
 use okane::import::{self, config, single_entry, Format, ImportError};
@@ -452,6 +462,168 @@ fn viseca_case(ws: &[&str]) -> String {
     )
 }
 
+// ------------------------------------------------------------------------------------------------
+// CSV: the real importer, and the cells as the `csv` crate yields them (the model decodes numbers and templates itself)
+
+/// header and records under the importer's reader configuration (flexible, delimiter, skipped head lines)
+fn csv_cells(cfg: &config::ConfigEntry, src: &[u8]) -> Option<Vec<Vec<String>>> {
+    let mut br = BufReader::new(src);
+    let mut rb = csv::ReaderBuilder::new();
+    rb.flexible(true);
+    if !cfg.format.delimiter.is_empty() {
+        rb.delimiter(cfg.format.delimiter.as_bytes()[0]);
+    }
+    let mut skipped = String::new();
+    for _ in 0..cfg.format.skip.head.max(0) {
+        skipped.clear();
+        br.read_line(&mut skipped).ok()?;
+    }
+    let mut rdr = rb.from_reader(br);
+    let mut out = Vec::new();
+    out.push(rdr.headers().ok()?.iter().map(|s| s.to_string()).collect());
+    for rec in rdr.records() {
+        out.push(rec.ok()?.iter().map(|s| s.to_string()).collect());
+    }
+    Some(out)
+}
+
+/// the regex crate's verdicts for the configured patterns on `hays`, closed under captured payees: `(pats ..)` and `(table ..)` bodies
+fn regex_table(entry: &config::ConfigEntry, mut hays: std::collections::BTreeSet<String>) -> (String, String) {
+    let mut pats: std::collections::BTreeSet<String> = std::collections::BTreeSet::new();
+    for r in &entry.rewrite {
+        let ms: Vec<&config::FieldMatcher> = match &r.matcher {
+            config::RewriteMatcher::Or(v) => v.iter().collect(),
+            config::RewriteMatcher::Field(m) => vec![m],
+        };
+        for m in ms {
+            for p in m.fields.values() {
+                pats.insert(p.clone());
+            }
+        }
+        if let Some(p) = &r.payee {
+            hays.insert(p.clone());
+        }
+    }
+    let compiled: Vec<(String, Option<regex::Regex>)> = pats.iter().map(|p| (p.clone(), import::extract::regex_matcher(p).ok())).collect();
+    let mut table: std::collections::BTreeMap<(String, String), Option<(Option<String>, Option<String>)>> = std::collections::BTreeMap::new();
+    loop {
+        let mut new: Vec<String> = Vec::new();
+        for (p, re) in &compiled {
+            let Some(re) = re else { continue };
+            for h in &hays {
+                let key = (p.clone(), h.clone());
+                if table.contains_key(&key) {
+                    continue;
+                }
+                let v = re.captures(h).map(|c| {
+                    let m: import::extract::Matched = c.into();
+                    (m.payee.map(str::to_string), m.code.map(str::to_string))
+                });
+                if let Some((Some(py), _)) = &v {
+                    if !hays.contains(py) {
+                        new.push(py.clone());
+                    }
+                }
+                table.insert(key, v);
+            }
+        }
+        if new.is_empty() || hays.len() > 600 {
+            break;
+        }
+        hays.extend(new);
+    }
+    let tab: Vec<String> = table
+        .iter()
+        .map(|((p, h), v)| match v {
+            None => format!("({} {} n)", enc(p), enc(h)),
+            Some((py, cd)) => format!("({} {} (m {} {}))", enc(p), enc(h), tree::opt(py.as_ref(), |s| enc(s)), tree::opt(cd.as_ref(), |s| enc(s))),
+        })
+        .collect();
+    let pat_sx: Vec<String> = compiled.iter().map(|(p, re)| format!("({} {})", enc(p), re.is_some() as u8)).collect();
+    (pat_sx.join(" "), tab.join(" "))
+}
+
+fn csv_case(ws: &[&str]) -> String {
+    if ws.len() < 3 {
+        return "(bad-case)".to_string();
+    }
+    let (path, yaml, content) = match (sx::dec(ws[0]), sx::dec(ws[1]), sx::dec_bytes(ws[2])) {
+        (Some(a), Some(b), Some(c)) => (a, b, c),
+        _ => return "(bad-case)".to_string(),
+    };
+    let mut hays: std::collections::BTreeSet<String> = std::collections::BTreeSet::new();
+    for w in &ws[3..] {
+        match sx::dec(w) {
+            Some(t) => {
+                hays.insert(t);
+            }
+            None => return "(bad-case)".to_string(),
+        }
+    }
+    let entry = match select_config(&yaml, &path) {
+        Ok(e) => e,
+        Err(m) => return m,
+    };
+    // 1. the real importer, printer and parser
+    let (imp, dumped) = match import::import(&content[..], Format::Csv, &entry) {
+        Err(e) => (format!("(err import {} ~)", err_kind(&e)), "()".to_string()),
+        Ok(xacts) => {
+            let mut built = Vec::new();
+            let mut bad = None;
+            for x in &xacts {
+                match x.to_double_entry(&entry.account) {
+                    Ok(t) => built.push(t),
+                    Err(e) => {
+                        bad = Some(format!("(err to_double_entry {} ~)", err_kind(&e)));
+                        break;
+                    }
+                }
+            }
+            match bad {
+                Some(b) => (b, "()".to_string()),
+                None => {
+                    let precisions = entry.format.commodity.iter().map(|(k, v)| (k.clone(), v.precision)).collect();
+                    (format!("(ok {})", built.iter().map(tree::txn).collect::<Vec<_>>().join(" ")), dump(&built, precisions))
+                }
+            }
+        }
+    };
+    // 2. the cells, and the dates chrono reads in them
+    let cells = csv_cells(&entry, &content[..]);
+    let mut dates = Vec::new();
+    let cells_sx = match &cells {
+        None => "(err)".to_string(),
+        Some(rows) => {
+            let mut distinct: std::collections::BTreeSet<String> = std::collections::BTreeSet::new();
+            for r in rows.iter().skip(1) {
+                for c in r {
+                    distinct.insert(c.clone());
+                }
+            }
+            for c in &distinct {
+                if let Ok(d) = chrono::NaiveDate::parse_from_str(c, &entry.format.date) {
+                    dates.push(format!("({} {})", enc(c), tree::date(d)));
+                }
+                hays.insert(c.clone());
+            }
+            let parts: Vec<String> = rows.iter().map(|r| format!("({})", r.iter().map(|c| enc(c)).collect::<Vec<_>>().join(" "))).collect();
+            format!("(ok {})", parts.join(" "))
+        }
+    };
+    // 3. the regex crate's verdicts
+    let (pats, table) = regex_table(&entry, hays);
+    format!(
+        "(ok (cfg {}) (cells {}) (dates {}) (import {}) (dump {}) (pats {}) (table {}))",
+        crate::c17::entry_sx(&entry),
+        cells_sx,
+        dates.join(" "),
+        imp,
+        dumped,
+        pats,
+        table
+    )
+}
+
 pub fn run(args: &[String], out: &mut dyn Write) -> i32 {
     let mode = args.first().map(|s| s.as_str()).unwrap_or("");
     let stdin = std::io::stdin();
@@ -468,6 +640,10 @@ pub fn run(args: &[String], out: &mut dyn Write) -> i32 {
             "viseca" => {
                 let ws: Vec<&str> = l2.split(' ').filter(|w| !w.is_empty()).collect();
                 viseca_case(&ws)
+            }
+            "csv" => {
+                let ws: Vec<&str> = l2.split(' ').filter(|w| !w.is_empty()).collect();
+                csv_case(&ws)
             }
             _ => "(bad-mode)".to_string(),
         });
